@@ -30,8 +30,11 @@ C09OK(e) ==
     /\ (Bounded(e.oa, mag) \/ Report("unbounded-or-non-finite"))
     /\ \/ e.kind # "pair"
        \/ /\ (Bounded(e.ob, mag) \/ Report("unbounded-or-non-finite"))
-          /\ LET a == e.oa[Len(e.oa)] b == e.ob[Len(e.ob)] IN
-             \/ (Tally("pairs") /\ OIsSome(a) /\ OIsSome(b) /\ QClose(OQ(a), OQ(b), QMul(QPow10Neg(9), QMul(Gain, mag))))
+          /\ LET a == e.oa[Len(e.oa)] b == e.ob[Len(e.ob)]
+                 \* after the common tail what remains of the past must be below 1e-9 of the scale of the TAIL
+                 tmag == IF "tailabs" \in DOMAIN e THEN QMax(QOne, QFrac(e.tailabs, e.unit)) ELSE mag
+             IN
+             \/ (Tally("pairs") /\ OIsSome(a) /\ OIsSome(b) /\ QClose(OQ(a), OQ(b), QMul(QPow10Neg(9), QMul(Gain, tmag))))
              \/ (OIsNone(a) /\ OIsNone(b))
              \/ Report("early-values-do-not-fade")
 
